@@ -424,3 +424,57 @@ Definition client_accept_share_group (cshares : list N) (g : N) : res unit :=
 Definition choose_sigalg (ours peer : list N) : option N := ips ours peer [].
 (* tls13ParseCertificateVerify: findFromUint16Array(ssl->supportedSigAlgs, ..) *)
 Definition client_accept_sigalg (supported : list N) (alg : N) : bool := mem alg supported.
+
+(* ------------------------------------------------------------------ matrixSslSetCipherSuiteEnabledStatus (cipherSuite.c)
+   Per-session list: ssl->disabledCiphers[SSL_MAX_DISABLED_CIPHERS], 0 = empty slot.  Slots are reused in place, so the
+   array can contain holes and - after a hole opened in front of an entry - the same ident twice.
+   Global list (ssl == NULL): one bit per table entry in disabledCipherFlags. *)
+Inductive rc := RcOk | RcLimit | RcNotFound.           (* PS_SUCCESS | PS_LIMIT_FAIL | PS_FAILURE (cipher not in supportedCiphers[]) *)
+Inductive dop := DDis (id : N) | DEn (id : N)          (* matrixSslSetCipherSuiteEnabledStatus(ssl, id, PS_FALSE / PS_TRUE) *)
+               | GDis (id : N) | GEn (id : N).         (* the same with ssl == NULL *)
+
+Definition in_table (id : N) : bool := existsb (fun s => s_id s =? id) suite_table.     (* the loop stops at the terminator: 0 is never found *)
+Definition empty_slots : list N := repeat 0 (N.to_nat c_SSL_MAX_DISABLED_CIPHERS).
+
+(* flags == PS_FALSE: "Find first empty spot to add disabled cipher": first slot that is empty OR already holds id *)
+Fixpoint disable_slot (slots : list N) (id : N) : option (list N) :=
+  match slots with
+  | [] => None                                          (* PS_LIMIT_FAIL *)
+  | s :: r => if (s =? 0) || (s =? id) then Some (id :: r)
+              else match disable_slot r id with Some r' => Some (s :: r') | None => None end
+  end.
+(* flags == PS_TRUE: zero the FIRST slot holding id, then return *)
+Fixpoint enable_slot (slots : list N) (id : N) : list N :=
+  match slots with
+  | [] => []
+  | s :: r => if s =? id then 0 :: r else s :: enable_slot r id
+  end.
+
+Record dstate := { d_slots : list N; d_global : list N }.
+Definition dinit : dstate := {| d_slots := empty_slots; d_global := [] |}.
+
+Definition set_status (st : dstate) (op : dop) : dstate * rc :=
+  match op with
+  | DDis id => if negb (in_table id) then (st, RcNotFound)
+               else match disable_slot (d_slots st) id with
+                    | Some s' => ({| d_slots := s'; d_global := d_global st |}, RcOk)
+                    | None => (st, RcLimit)
+                    end
+  | DEn id => if negb (in_table id) then (st, RcNotFound)
+              else ({| d_slots := enable_slot (d_slots st) id; d_global := d_global st |}, RcOk)
+  | GDis id => if negb (in_table id) then (st, RcNotFound)
+               else ({| d_slots := d_slots st; d_global := if mem id (d_global st) then d_global st else id :: d_global st |}, RcOk)
+  | GEn id => if negb (in_table id) then (st, RcNotFound)
+              else ({| d_slots := d_slots st; d_global := filter (fun x => negb (x =? id)) (d_global st) |}, RcOk)
+  end.
+
+Fixpoint run_ops (st : dstate) (ops : list dop) : dstate * list rc :=
+  match ops with
+  | [] => (st, [])
+  | op :: r => let '(st1, c) := set_status st op in
+               let '(st2, cs) := run_ops st1 r in (st2, c :: cs)
+  end.
+
+(* the scan in sslGetCipherSpec: every slot is looked at ([mem id (g_disabled g)] in get_cipher_spec) *)
+Definition scfg_after (server : bool) (supp active : N) (st : dstate) : scfg :=
+  {| g_server := server; g_supp := supp; g_active := active; g_disabled_global := d_global st; g_disabled := d_slots st |}.
